@@ -25,6 +25,24 @@ VDissect(x) ==
   \o FailIf(x.fault = 0 /\ (x.rc # 0 \/ ListOf(x.list) # Dissect(x.in, x.ps, x.conv)), "C17", "dissected list differs")
   \o FailIf(x.rc = 0 /\ x.count # Len(x.list), "C17", "item count differs from the list length")
   \o FailIf(x.leak # 0 \/ ~Balanced(Ledger(x.mem)), "C13", "blocks of the supplied manager left outstanding or wrongly released")
+\* the allocating calls with a request of the supplied manager refused: a REPORTED success is the fault-free result; a refused request ends
+\* in the out-of-memory code (C14) with nothing left outstanding (C13)
+VDissectFault(x) ==
+     FailIf(x.rc = 0 /\ (ListOf(x.list) # Dissect(x.in, x.ps, x.conv) \/ x.count # Len(x.list)), "C17", "dissection reported success under a failing manager but the list is not the query's")
+  \o FailIf(x.refused /\ x.rc # 3, "C14", "a request was refused but dissection did not return the out-of-memory code")
+  \o FailIf(~x.refused /\ x.rc # 0, "C17", "dissection failed although no request was refused")
+  \o FailIf(x.leak # 0, "C13", "blocks of the supplied manager left outstanding")
+VComposeFault(x) == LET ql == ListOf(x.list) IN
+     FailIf(x.rc = 0 /\ x.out # Some(Compose(ql, x.sp, x.nb)), "C17", "composing reported success under a failing manager but the text is not the list's")
+  \o FailIf(x.refused /\ x.rc # 3, "C14", "a request was refused but composing did not return the out-of-memory code")
+  \o FailIf(~x.refused /\ x.rc # 0, "C17", "composing failed although no request was refused")
+  \o FailIf(x.leak # 0, "C13", "blocks of the supplied manager left outstanding")
+\* a list of x.items plain keys of x.klen characters whose worst-case size (6 per character with break normalization) fits INT_MAX: measured,
+\* allocated and composed for real - by either character type (the limit is one of characters, not bytes)
+VHuge(x) == LET fits == ((6 * (x.klen \div 1000) * x.items) \div 1000) < IntMaxMillions IN
+     FailIf(fits /\ (x.rcreq # 0 \/ x.rc # 0), "C17", "a list whose worst-case size fits INT_MAX was refused")
+  \o FailIf(x.rc = 0 /\ (x.outlen # x.items * x.klen + x.items - 1 \/ ~x.textOK), "C17", "the composed text of the huge list is not the list's")
+  \o FailIf(x.leak # 0, "C13", "blocks of the supplied manager left outstanding")
 \* key and value of km / vm million characters: the true worst-case size does not fit INT_MAX => refusal, never a wrapped figure
 VGiant(x) == LET need == Worst(x.nb) * x.km + Worst(x.nb) * x.vm IN
      FailIf(need > IntMaxMillions /\ x.rc = 0, "C17", "required size exceeds INT_MAX but a (wrapped) figure was returned with success")
@@ -52,6 +70,6 @@ VBoundaryMalloc(x) == LET need == SumItems(x.items, 1, x.nb, <<0, 0>>) IN
      FailIf((PairGt(need, IntMaxPair) \/ need = IntMaxPair) /\ (x.rc = 0 \/ ~x.untouched), "C17", "the allocating variant accepted a list whose size plus terminator exceeds INT_MAX (or handed out a string with its refusal)")
 
 V(x) == CASE x.e = "ComposeReqBoundary" -> VBoundary(x) [] x.e = "ComposeMallocBoundary" -> VBoundaryMalloc(x) [] x.e = "ComposeReq" -> VComposeReq(x) [] x.e = "Compose" -> VCompose(x) [] x.e = "ComposeMalloc" -> VComposeMalloc(x)
-          [] x.e = "Dissect" -> VDissect(x) [] x.e = "ComposeReqGiant" -> VGiant(x) [] x.e = "ComposeMallocGiant" -> VGiantMalloc(x) [] OTHER -> Fail("C17", "unknown event")
+          [] x.e = "Dissect" -> VDissect(x) [] x.e = "ComposeMallocHuge" -> VHuge(x) [] x.e = "DissectFault" -> VDissectFault(x) [] x.e = "ComposeFault" -> VComposeFault(x) [] x.e = "ComposeReqGiant" -> VGiant(x) [] x.e = "ComposeMallocGiant" -> VGiantMalloc(x) [] OTHER -> Fail("C17", "unknown event")
 TNext == TStep(V)
 =============================================================================
